@@ -4,7 +4,7 @@ pub trait Actor: Sized {
     spec fn gid(&self) -> int;
     fn started(&mut self, ctx: &mut Context<Self>, Tracked(w): Tracked<&mut World>) -> (r: DynResult<()>)
         requires started_phase_ok(old(w).lc, old(self).gid()),                                                                // @ob lc.started-allowed C03,C07
-                 started_timers_ok(old(w).lc),                                                                                // @ob lc.no-timer-of-the-old-incarnation-at-restart C07
+                 started_timers_ok(old(w).lc),                                                                                // @ob lc.no-timer-of-the-old-incarnation-at-restart C07,C10
         ensures emits(old(w), final(w), Ev::CbStarted { gid: old(self).gid(), ok: r is Ok }), final(self).gid() == old(self).gid(), ctx_stable(old(ctx), final(ctx));
     fn stopped(&mut self, ctx: &mut Context<Self>, Tracked(w): Tracked<&mut World>)
         requires allowed(old(w).lc, Ev::CbStopped { gid: old(self).gid() }),                                                  // @ob lc.stopped-allowed C03,C04,C13,C06,C14,C17,C16
